@@ -344,3 +344,43 @@ Definition get_state_probability (b : bn) (states : list (var * name)) : gsp_res
         end
   | e => GSP_check e
   end.
+
+(* ---- non-finite entries (numpy nan / +-inf, written None) -------------------------------------------
+   is_valid_cpd compares the column sums with np.allclose: a nan or infinite sum is never close to 1, and a
+   column sum is non-finite as soon as one of its entries is.  So a table with a non-finite entry is invalid. *)
+Definition is_valid_ocpd (c : ocpd) : bool :=
+  match ocpd_finite c with Some c' => is_valid_cpd c' | None => false end.
+
+Definition odefault (x : option Qc) : Qc := match x with Some q => q | None => 0 end.
+
+(* the constructor on a table that may hold non-finite entries (shape / scope / state-name checks as coded) *)
+Definition mk_ocpd (v : var) (card : nat) (rows : list (list (option Qc))) (ev : list var) (ecard : list nat)
+  (sn : snmap) : err + ocpd :=
+  match mk_cpd v card (map (map odefault) rows) ev ecard sn with
+  | inl e => inl e
+  | inr c => inr (mkcpd (child c) (ccard c) (pars c) (pcards c) (concat rows) (snames c))
+  end.
+Definition zeroed (c : ocpd) : cpd :=
+  mkcpd (child c) (ccard c) (pars c) (pcards c) (map odefault (vals c)) (snames c).
+
+(* check_model on a network some of whose CPDs (children listed in nf) hold a non-finite entry; those CPDs are
+   carried with zeros in place of the non-finite entries, which are never read: the validity test fails first *)
+Definition check_node1_nf (b : bn) (nf : list var) (v : node) : cm_result :=
+  match get_cpd b v with
+  | None => CM_no_cpd
+  | Some c =>
+      if negb (seteqb (get_evidence c) (parents (bg b) v)) then CM_parents
+      else if negb (forallb (sn_has (snames c)) (variables c)) then CM_no_state_names
+      else if negb (is_valid_cpd c && negb (memv (child c) nf)) then CM_sum
+      else CM_ok
+  end.
+Definition check_model_nf (b : bn) (nf : list var) : cm_result :=
+  match first_fail (check_node1_nf b nf) (nodes (bg b)) with
+  | CM_ok => first_fail (check_node2 b) (nodes (bg b))
+  | e => e
+  end.
+Definition get_state_probability_nf (b : bn) (nf : list var) (states : list (var * name)) : gsp_result :=
+  match check_model_nf b nf with
+  | CM_ok => get_state_probability b states
+  | e => GSP_check e
+  end.
